@@ -92,12 +92,30 @@ impl World {
 struct Parked {
     idx: usize,
     w: Arc<World>,
+    /// operations submitted at every poll (stress variant with a small submission queue)
+    push: usize,
+    reads: std::collections::VecDeque<IdleRead>,
+}
+
+impl Parked {
+    fn new(idx: usize, w: Arc<World>) -> Parked {
+        Parked { idx, w, push: 0, reads: Default::default() }
+    }
 }
 
 impl Future for Parked {
     type Output = ();
 
-    fn poll(self: Pin<&mut Self>, cx: &mut Context<'_>) -> Poll<()> {
+    fn poll(mut self: Pin<&mut Self>, cx: &mut Context<'_>) -> Poll<()> {
+        for _ in 0..self.push {
+            // at most 8 reads outstanding: the oldest is dropped (= cancelled: one more SQE)
+            if self.reads.len() >= 8 {
+                self.reads.pop_front();
+            }
+            let mut r = Runtime::with_current(|rt| idle_read(rt));
+            let _ = r.fut.as_mut().poll(cx);
+            self.reads.push_back(r);
+        }
         let s = &self.w.slots[self.idx];
         // register first, then look at the request number (the usual "register, then re-check" order)
         {
@@ -112,6 +130,27 @@ impl Future for Parked {
         s.polls.fetch_add(1, SeqCst);
         self.w.log.lock().unwrap().push(self.idx);
         if self.w.stop.load(SeqCst) { Poll::Ready(()) } else { Poll::Pending }
+    }
+}
+
+/// a read on a pipe nobody writes to: stays in flight; submitting it is one `Driver::push` (an SQE on io_uring)
+struct IdleRead {
+    fut: Pin<Box<dyn Future<Output = ()>>>,
+    _wr: OwnedFd,
+}
+
+fn idle_read(rt: &Runtime) -> IdleRead {
+    let mut fds = [0i32; 2];
+    let r = unsafe { libc::pipe2(fds.as_mut_ptr(), libc::O_CLOEXEC) };
+    assert_eq!(r, 0, "pipe2");
+    let (rd, wr) = unsafe { (OwnedFd::from_raw_fd(fds[0]), OwnedFd::from_raw_fd(fds[1])) };
+    let fd = compio_driver::SharedFd::new(rd);
+    let sub = rt.submit(compio_driver::op::Read::new(fd, Vec::<u8>::with_capacity(8)));
+    IdleRead {
+        fut: Box::pin(async move {
+            let _ = sub.await;
+        }),
+        _wr: wr,
     }
 }
 
@@ -172,8 +211,14 @@ impl Built {
 }
 
 fn build(drv: DriverType, q: usize, iv: usize) -> Result<Built, String> {
+    build_cap(drv, q, iv, 16)
+}
+
+fn build_cap(drv: DriverType, q: usize, iv: usize, cap: u32) -> Result<Built, String> {
     let mut pb = ProactorBuilder::new();
-    pb.driver_type(drv).capacity(16);
+    // a small SUBMISSION queue, but a completion queue that cannot overflow (a CQ of 2*cap entries overflows after a
+    // few un-reaped NOTIFY completions, and when the kernel flushes its overflow list is not deterministic)
+    pb.driver_type(drv).capacity(cap).cqsize(256);
     let efd = if drv == DriverType::IoUring { Some(new_eventfd()) } else { None };
     if let Some(f) = &efd {
         pb.register_eventfd(f.as_raw_fd());
@@ -233,14 +278,21 @@ struct Det {
     // fd was seen readable (sticky until the next `run`: the loop's wait returns at once)
     reported: bool,
     drv_name: String,
+    /// reads in flight (op `push`)
+    reads: Vec<IdleRead>,
+    // flag oracle (implementation only): a waker was invoked since the flag was last reset (flush / poll): the
+    // NOTIFIED bit may only disappear through a reset, so the next flush must say "notified" and the next timed
+    // poll must return at once
+    owed_flag: bool,
+    pushes_since_wake: usize,
 }
 
 impl Det {
-    fn new(drv: DriverType, q: usize, iv: usize, n: usize) -> Result<Det, String> {
-        let b = build(drv, q, iv)?;
+    fn new(drv: DriverType, q: usize, iv: usize, n: usize, cap: u32) -> Result<Det, String> {
+        let b = build_cap(drv, q, iv, cap)?;
         let w = World::new(n + 1);
         for i in 0..n {
-            let fut = Parked { idx: i, w: w.clone() };
+            let fut = Parked::new(i, w.clone());
             b.rt.enter(|| b.rt.spawn(fut)).detach();
         }
         // park every task once: afterwards all are cold, their wakers are known, the driver was not touched
@@ -253,7 +305,7 @@ impl Det {
         }
         w.log.lock().unwrap().clear();
         let main_waker = b.rt.waker();
-        Ok(Det { b, w, n, main_waker, helpers: vec![], legit: true, owed: false, flushed: false, reported: false, drv_name: format!("{drv:?}") })
+        Ok(Det { b, w, n, main_waker, helpers: vec![], legit: true, owed: false, flushed: false, reported: false, drv_name: format!("{drv:?}"), reads: vec![], owed_flag: false, pushes_since_wake: 0 })
     }
 
     fn task_waker(&self, t: usize) -> Option<Waker> {
@@ -264,6 +316,8 @@ impl Det {
     }
 
     fn finish(mut self) {
+        let reads = std::mem::take(&mut self.reads);
+        self.b.rt.enter(|| drop(reads));
         // let spinning helper threads finish: drain the queue until they are done
         let t0 = Instant::now();
         while self.helpers.iter().any(|h| !h.is_finished()) && t0.elapsed() < Duration::from_secs(5) {
@@ -282,13 +336,60 @@ impl Det {
 fn det_op(d: &mut Det, line: &str, ex: &mut Exec) -> String {
     let toks: Vec<&str> = line.split_whitespace().collect();
     match toks.as_slice() {
+        ["push", k] => {
+            let Ok(k) = k.parse::<usize>() else { return "bad-op".into() };
+            let Det { b, reads, .. } = d;
+            b.rt.enter(|| {
+                let w = Waker::noop();
+                let mut cx = Context::from_waker(&w);
+                for _ in 0..k {
+                    let mut r = idle_read(&b.rt);
+                    let _ = r.fut.as_mut().poll(&mut cx);
+                    reads.push(r);
+                }
+            });
+            d.pushes_since_wake += k;
+            "ok".into()
+        }
+        ["pollt", ms] => {
+            let Ok(ms) = ms.parse::<u64>() else { return "bad-op".into() };
+            let t0 = Instant::now();
+            let r = catch(|| d.b.rt.poll_with(Some(Duration::from_millis(ms))));
+            let woken = t0.elapsed() < Duration::from_millis(ms / 2);
+            if let Err(e) = r {
+                return format!("panic {e}");
+            }
+            if d.owed_flag && !woken {
+                let sig = if d.pushes_since_wake > 0 { "C03:lost-wake-after-sq-overflow" } else { "C03:lost-wake" };
+                ex.fail(sig, format!("deterministic program on {}: a waker was invoked since the last poll/flush ({} operations pushed since), but poll_with({ms} ms) slept until its timeout", d.drv_name, d.pushes_since_wake));
+            }
+            d.owed_flag = false;
+            d.legit = false;
+            if woken { "poll=woken".into() } else { "poll=timeout".into() }
+        }
+        ["wakex"] => {
+            // the driver waker on another thread (joined)
+            let wk = d.main_waker.clone();
+            std::thread::spawn(move || wk.wake()).join().unwrap();
+            d.owed = true;
+            d.owed_flag = true;
+            d.pushes_since_wake = 0;
+            "ok".into()
+        }
         ["wake"] => {
             d.main_waker.wake_by_ref();
+            d.owed_flag = true;
+            d.pushes_since_wake = 0;
             d.owed = true;
             "ok".into()
         }
         ["flush"] => {
             let n = d.b.rt.flush();
+            if d.owed_flag && !n {
+                let sig = if d.pushes_since_wake > 0 { "C03:lost-wake-after-sq-overflow" } else { "C03:lost-wake" };
+                ex.fail(sig, format!("deterministic program on {}: a waker was invoked since the last poll/flush ({} operations pushed since), but flush() says the driver is not notified", d.drv_name, d.pushes_since_wake));
+            }
+            d.owed_flag = false;
             d.flushed = true;
             if n {
                 d.reported = true;
@@ -298,6 +399,7 @@ fn det_op(d: &mut Det, line: &str, ex: &mut Exec) -> String {
         ["poll0"] => match catch(|| d.b.rt.poll_with(Some(Duration::ZERO))) {
             Ok(()) => {
                 d.legit = false;
+                d.owed_flag = false;
                 "ok".into()
             }
             Err(e) => format!("panic {e}"),
@@ -330,6 +432,7 @@ fn det_op(d: &mut Det, line: &str, ex: &mut Exec) -> String {
             helper().send((wk, tx)).expect("helper thread");
             match rx.recv_timeout(Duration::from_secs(10)) {
                 Ok(()) => {
+                    // (a coalesced remote wake does not touch the driver flag: no flag obligation here)
                     d.owed = true;
                     "ok".into()
                 }
@@ -344,6 +447,8 @@ fn det_op(d: &mut Det, line: &str, ex: &mut Exec) -> String {
         ["lwake", t] => {
             let Some(wk) = t.parse().ok().and_then(|t: usize| d.task_waker(t)) else { return "bad-op".into() };
             d.b.rt.enter(|| wk.wake_by_ref());
+            d.owed_flag = true;
+            d.pushes_since_wake = 0;
             // same-thread wakes happen inside polls, i.e. inside `run`: not a point where the loop waits
             d.legit = false;
             "ok".into()
@@ -392,8 +497,8 @@ fn cancel_probe(drv: DriverType) -> String {
     let Ok(b) = build(drv, 1, 61) else { return "probe skipped".into() };
     let w = World::new(3);
     let dropped = Arc::new(AtomicBool::new(false));
-    b.rt.enter(|| b.rt.spawn(Parked { idx: 0, w: w.clone() })).detach();
-    let handle = b.rt.enter(|| b.rt.spawn(DropFlag { inner: Parked { idx: 1, w: w.clone() }, dropped: dropped.clone() }));
+    b.rt.enter(|| b.rt.spawn(Parked::new(0, w.clone()))).detach();
+    let handle = b.rt.enter(|| b.rt.spawn(DropFlag { inner: Parked::new(1, w.clone()), dropped: dropped.clone() }));
     while b.rt.enter(|| b.rt.run()) {}
     let wa = w.slots[0].waker.lock().unwrap().clone().unwrap();
     let wb = w.slots[1].waker.lock().unwrap().clone().unwrap();
@@ -445,10 +550,18 @@ struct StressCfg {
     wakes: usize,
     rounds: usize,
     seed: u64,
+    /// io_uring submission queue capacity
+    cap: usize,
+    /// operations every task submits at each poll (0 = none)
+    push: usize,
 }
 
 fn parse_stress(toks: &[&str]) -> Option<StressCfg> {
-    if toks.len() != 10 || toks[0] != "stress" {
+    if !(toks.len() == 10 || toks.len() == 12) || toks[0] != "stress" {
+        return None;
+    }
+    let (cap, push) = if toks.len() == 12 { (kv(toks[10], "cap")?, kv(toks[11], "push")?) } else { (16, 0) };
+    if cap == 0 {
         return None;
     }
     Some(StressCfg {
@@ -465,14 +578,16 @@ fn parse_stress(toks: &[&str]) -> Option<StressCfg> {
         wakes: kv(toks[7], "wakes")?,
         rounds: kv(toks[8], "rounds")?,
         seed: kv(toks[9], "seed")? as u64,
+        cap,
+        push,
     })
 }
 
 /// the body of the runtime thread
 type Handles = Vec<compio_runtime::JoinHandle<()>>;
 
-fn rt_thread(cfg_drv: DriverType, lp: LoopKind, q: usize, iv: usize, tasks: usize, w: Arc<World>, ready: mpsc::Sender<Result<Handles, String>>) {
-    let b = match build(cfg_drv, q, iv) {
+fn rt_thread(cfg_drv: DriverType, lp: LoopKind, q: usize, iv: usize, tasks: usize, cap: usize, push: usize, w: Arc<World>, ready: mpsc::Sender<Result<Handles, String>>) {
+    let b = match build_cap(cfg_drv, q, iv, cap as u32) {
         Ok(b) => b,
         Err(e) => {
             let _ = ready.send(Err(e));
@@ -485,11 +600,12 @@ fn rt_thread(cfg_drv: DriverType, lp: LoopKind, q: usize, iv: usize, tasks: usiz
     // that spin on a full queue when the runtime is dead (only needed after a failure)
     let mut handles: Handles = vec![];
     for i in 0..tasks {
-        let fut = Parked { idx: i, w: w.clone() };
+        let mut fut = Parked::new(i, w.clone());
+        fut.push = push;
         handles.push(b.rt.enter(|| b.rt.spawn(fut)));
     }
     let _ = ready.send(Ok(handles));
-    let main = Parked { idx: main_idx, w: w.clone() };
+    let main = Parked::new(main_idx, w.clone());
     match lp {
         LoopKind::Own => {
             b.rt.block_on(main);
@@ -562,7 +678,8 @@ fn stress(cfg: &StressCfg, ex: &mut Exec) {
     let (tx, rx) = mpsc::channel();
     let (drv, lp, q, iv, tasks) = (cfg.drv, cfg.lp, cfg.q, cfg.iv, cfg.tasks);
     let w2 = w.clone();
-    let rt_handle = std::thread::spawn(move || rt_thread(drv, lp, q, iv, tasks, w2, tx));
+    let (cap, push) = (cfg.cap, cfg.push);
+    let rt_handle = std::thread::spawn(move || rt_thread(drv, lp, q, iv, tasks, cap, push, w2, tx));
     let handles = match rx.recv_timeout(Duration::from_secs(5)) {
         Ok(Ok(h)) => h,
         Ok(Err(e)) => {
@@ -588,7 +705,14 @@ fn stress(cfg: &StressCfg, ex: &mut Exec) {
     let _ = all;
     let wakers: Arc<Vec<Waker>> = Arc::new(w.slots.iter().map(|s| s.waker.lock().unwrap().clone().unwrap()).collect());
     let mut rng = Rng::new(cfg.seed);
-    let sig = if lp == LoopKind::Own { "C03:lost-wake" } else { "C03:external-loop-lost-wake" };
+    let sig = if cfg.push > 0 {
+        // tasks submit operations on a small submission queue: its overflow path reaps completions mid-tick
+        "C03:lost-wake-after-sq-overflow"
+    } else if lp == LoopKind::Own {
+        "C03:lost-wake"
+    } else {
+        "C03:external-loop-lost-wake"
+    };
     let mut lost = false;
     let barrier_ctr = Arc::new(AtomicUsize::new(0));
     for round in 0..cfg.rounds {
@@ -732,7 +856,7 @@ fn stress(cfg: &StressCfg, ex: &mut Exec) {
             std::thread::spawn(move || drop(handles));
         }
     }
-    ex.tag(format!("stress:{:?}:{:?}:q{}", cfg.drv, cfg.lp, cfg.q).to_lowercase());
+    ex.tag(format!("stress:{:?}:{:?}:q{}{}", cfg.drv, cfg.lp, cfg.q, if cfg.push > 0 { format!(":cap{}", cfg.cap) } else { String::new() }).to_lowercase());
 }
 
 // ---------------------------------------------------------------------------------------------
@@ -746,12 +870,13 @@ fn exec(case: &Case) -> Exec {
     for line in &case.lines {
         let toks: Vec<&str> = line.split_whitespace().collect();
         let out = match toks.first().copied() {
-            Some("new") if toks.len() == 5 => {
+            Some("new") if toks.len() == 5 || toks.len() == 6 => {
                 if let Some(d) = det.take() {
                     d.finish();
                 }
-                match (drv_of(toks[1]), kv(toks[2], "q"), kv(toks[3], "iv"), kv(toks[4], "tasks")) {
-                    (Some(drv), Some(q), Some(iv), Some(n)) if q >= 1 => match Det::new(drv, q, iv, n) {
+                let cap = if toks.len() == 6 { kv(toks[5], "cap") } else { Some(16) };
+                match (drv_of(toks[1]), kv(toks[2], "q"), kv(toks[3], "iv"), kv(toks[4], "tasks"), cap) {
+                    (Some(drv), Some(q), Some(iv), Some(n), Some(cap)) if q >= 1 && cap >= 1 => match Det::new(drv, q, iv, n, cap as u32) {
                         Ok(d) => {
                             det = Some(d);
                             ex.tag(format!("det:{}", toks[1]));
@@ -806,17 +931,30 @@ fn gen_det(rng: &mut Rng, name: String) -> Case {
     let q = *rng.pick(&[1usize, 1, 2, 3, 64]);
     let iv = *rng.pick(&[1usize, 2, 3, 61]);
     let tasks = rng.below(5) as usize;
-    let mut lines = vec![format!("new {drv} q={q} iv={iv} tasks={tasks}")];
+    let cap = *rng.pick(&[1usize, 2, 4, 16, 16]);
+    let mut lines = vec![format!("new {drv} q={q} iv={iv} tasks={tasks} cap={cap}")];
     let n = rng.range(4, 24);
     // upper bound on the length of the sync queue (remote wakes since the last drain)
     let mut queued = 0usize;
+    // a waker was invoked since the flag was last reset: a timed poll returns at once (keeps the cases fast)
+    let mut notified = false;
+    let mut timed = 0;
     for _ in 0..n {
-        let r = rng.below(100);
-        let op = if r < 14 {
-            "wake".to_string()
+        let r = rng.below(108);
+        let op = if r >= 100 {
+            format!("push {}", rng.range(1, 7))
+        } else if r < 3 && notified && timed < 2 {
+            notified = false;
+            timed += 1;
+            "pollt 300".to_string()
+        } else if r < 14 {
+            notified = true;
+            if rng.chance(1, 4) { "wakex".to_string() } else { "wake".to_string() }
         } else if r < 32 {
+            notified = false;
             "flush".to_string()
         } else if r < 46 {
+            notified = false;
             "poll0".to_string()
         } else if r < 60 {
             "fd".to_string()
@@ -833,6 +971,7 @@ fn gen_det(rng: &mut Rng, name: String) -> Case {
             format!("twake {}", rng.below(tasks as u64))
         } else if r < 88 && tasks > 0 {
             queued = 0;
+            notified = true;
             format!("lwake {}", rng.below(tasks as u64))
         } else {
             queued = 0;
@@ -866,6 +1005,46 @@ fn generate(tier: &str, rng: &mut Rng) -> Vec<Case> {
             k += 1;
         }
     }
+    // submission-queue overflow between a wake and the next park (seed C03-a): timed-out poll (flag IDLE, notifier
+    // armed), cross-thread wake (eventfd + NOTIFY completion), k pushes on a queue of capacity 1/2/4 (the overflow
+    // path of push_raw reaps the completion), then the runtime parks / flushes / looks at its descriptors
+    let n_sq = if thorough { 400 } else { 60 };
+    for i in 0..n_sq {
+        let drv = if i % 5 == 4 { "poll" } else { "iour" };
+        let cap = *rng.pick(&[1usize, 2, 4]);
+        let mut lines = vec![format!("new {drv} q=64 iv=61 tasks={} cap={cap}", rng.below(3))];
+        if rng.chance(1, 3) {
+            lines.push("flush".into());
+        }
+        lines.push(if rng.chance(1, 4) { "push 1".into() } else { "poll0".into() });
+        if rng.chance(1, 2) {
+            lines.push("poll0".into());
+        }
+        lines.push(if rng.chance(2, 3) { "wakex".into() } else { "wake".into() });
+        if rng.chance(1, 3) {
+            lines.push("ring".into());
+        }
+        lines.push(format!("push {}", rng.range(0, 9)));
+        match rng.below(4) {
+            0 => {
+                lines.push("flush".into());
+                lines.push("fd".into());
+            }
+            1 => {
+                lines.push("ring".into());
+                lines.push("fd".into());
+                lines.push("pollt 300".into());
+            }
+            _ => lines.push("pollt 300".into()),
+        }
+        lines.push("ring".into());
+        if rng.chance(1, 2) {
+            lines.push("wake".into());
+            lines.push(format!("push {}", rng.range(0, 6)));
+            lines.push("flush".into());
+        }
+        cases.push(Case { name: format!("sq-{i}"), lines });
+    }
     let n_det = if thorough { 20_000 } else { 1_500 };
     for i in 0..n_det {
         cases.push(gen_det(rng, format!("det-{i}")));
@@ -885,6 +1064,15 @@ fn generate(tier: &str, rng: &mut Rng) -> Vec<Case> {
                 k += 1;
             }
         }
+    }
+    // small submission queue + tasks that submit operations at every poll, while wakes arrive
+    for (drv, lp, cap, push, iv) in [("iour", "own", 1usize, 2usize, 1usize), ("iour", "own", 2, 3, 1), ("iour", "own", 4, 3, 2), ("iour", "ext", 2, 3, 1), ("poll", "own", 2, 2, 1)] {
+        let seed = rng.next() % 1_000_000;
+        cases.push(Case {
+            name: format!("stress-sq-{k}"),
+            lines: vec![format!("stress {drv} {lp} q=64 iv={iv} tasks=3 threads=3 wakes=2 rounds={rounds} seed={seed} cap={cap} push={push}")],
+        });
+        k += 1;
     }
     cases
 }
